@@ -1,9 +1,9 @@
 #!/bin/bash
 # usage: tools/seed_sweep.sh <property> [seed dirs...]
 # Runs the property's quick check against each seeded change, in the scratch worktree /tmp/wt/<property>
-# (checked out at /repo's HEAD, patch applied there, VERIF_REPO pointing at it). /repo is not touched.
+# (WTROOT overrides /tmp/wt; checked out at /repo's HEAD, patch applied there, VERIF_REPO pointing at it). /repo is not touched.
 PROP="$1"; shift
-WT=/tmp/wt/$PROP
+WT=${WTROOT:-/tmp/wt}/$PROP
 HEAD=$(git -C /repo rev-parse HEAD)
 git -C "$WT" checkout -q -- . 2>/dev/null
 git -C "$WT" checkout -q --detach "$HEAD" || exit 2
@@ -13,7 +13,7 @@ for d in "${DIRS[@]}"; do
   name=$(basename "$d")
   git -C "$WT" checkout -q -- .
   if ! git -C "$WT" apply "$d/patch.diff" 2>/dev/null; then git -C "$WT" checkout -q -- .; if ! git -C "$WT" apply -3 "$d/patch.diff" >/dev/null 2>&1 || git -C "$WT" diff --name-only --diff-filter=U | grep -q .; then echo "$name: PATCH DOES NOT APPLY"; git -C "$WT" reset -q --hard; continue; fi; git -C "$WT" reset -q; fi
-  out=$(cd /verif && VERIF_REPO="$WT" VERIF_EVIDENCE_DIR=/tmp/bw/ev VERIF_REPLAY_DIR=/tmp/bw/rp ./run_check.sh "$PROP" quick 2>&1)
+  out=$(cd /verif && VERIF_REPO="$WT" VERIF_EVIDENCE_DIR=${SWEEP_SCRATCH:-/tmp/bw}/ev VERIF_REPLAY_DIR=${SWEEP_SCRATCH:-/tmp/bw}/rp ./run_check.sh "$PROP" quick 2>&1)
   rc=$?
   v=$(echo "$out" | grep -c '^VIOLATION')
   cls=$(echo "$out" | grep -A1 '^VIOLATION' | grep 'class=' | head -3 | sed 's/^ *//' | tr '\n' ';')
